@@ -421,7 +421,15 @@ def render(spec: T.Dict[str, T.Any], sd: str) -> None:
             depobjs = list(e.get('deps', []))
             hdr_objs = [h for h in e.get('uses', []) if byname[h]['kind'] != 'cfg']
             if e.get('hdr_via') == 'dep' and hdr_objs:
-                out.append(f"{n}_hdrdep = declare_dependency(sources: [{', '.join(hdr_objs)}])\n")
+                import zlib
+                if zlib.crc32(n.encode()) % 2 == 0:
+                    # (every second one) the generated headers sit in a sources-only dependency nested in another one, and
+                    # the target takes a partial_dependency(sources: true) of the outer one
+                    out.append(f"{n}_hdrdep_in = declare_dependency(sources: [{', '.join(hdr_objs)}])\n"
+                               f"{n}_hdrdep_out = declare_dependency(dependencies: {n}_hdrdep_in, compile_args: ['-DVIA_NESTED_DEP'])\n"
+                               f"{n}_hdrdep = {n}_hdrdep_out.partial_dependency(compile_args: true, includes: true, sources: true)\n")
+                else:
+                    out.append(f"{n}_hdrdep = declare_dependency(sources: [{', '.join(hdr_objs)}])\n")
                 depobjs.append(f'{n}_hdrdep')
             else:
                 srcs += hdr_objs
